@@ -2,6 +2,7 @@
 //! delivery schedules, fault positions and the scheduling policy.
 
 use crate::corpus::{soup, Program};
+use crate::progen::progen;
 use crate::faults::{self, SrcFault};
 use crate::rng::Rng;
 use crate::sched::SchedSpec;
@@ -15,10 +16,10 @@ pub fn job_of(p: &Program) -> JobSpec {
 }
 
 fn pick_program(r: &mut Rng, corpus: &[Program]) -> Program {
-    if r.chance(1, 4) {
-        soup(r.next_u64())
-    } else {
-        corpus[r.usize_below(corpus.len())].clone()
+    match r.below(4) {
+        0 => soup(r.next_u64()),
+        1 => progen(r.next_u64()),
+        _ => corpus[r.usize_below(corpus.len())].clone(),
     }
 }
 
@@ -339,7 +340,11 @@ pub fn c16_world(seed: u64, corpus: &[Program]) -> World {
     let mut r = Rng::new(seed);
     let with_inc: Vec<usize> = (0..corpus.len()).filter(|i| !corpus[*i].includes.is_empty()).collect();
     let pi = if !with_inc.is_empty() && r.chance(1, 6) { *r.pick(&with_inc) } else { r.usize_below(corpus.len()) };
-    let p = if r.chance(1, 8) { soup(r.next_u64()) } else { corpus[pi].clone() };
+    let p = match r.below(8) {
+        0 => soup(r.next_u64()),
+        1 | 2 => progen(r.next_u64()),
+        _ => corpus[pi].clone(),
+    };
     let mode = r.below(10);
     let mut fl: Vec<SrcFault> = Vec::new();
     let mut cur = p.source.clone();
@@ -507,5 +512,28 @@ pub fn delivery_world(prop: &str, corpus: &[Program], pi: usize, v: usize) -> Wo
     }
     w.seed = crate::rng::mix(0xDE11, (pi as u64) << 8 | v as u64);
     w.note = format!("directed delivery variant {} of program {}", v, pi);
+    w
+}
+
+
+/// C16 directed pass over generated programs: the i-th generated program as it is (even index) or
+/// with one random single fault (odd index).
+pub fn c16_progen_world(base: u64, i: u64) -> World {
+    let mut r = Rng::new(crate::rng::mix(base ^ 0x9806, i / 2));
+    let p = progen(r.next_u64());
+    let mut w = if i % 2 == 0 {
+        World::solo("C16", job_of(&p))
+    } else {
+        let kind = *r.pick(&faults::SINGLE_KINDS);
+        let sp = faults::space(kind, &p.source);
+        if sp > 0 {
+            let f = faults::nth(kind, &p.source, r.usize_below(sp));
+            World::solo("C16", damaged_job(&p, &[f]))
+        } else {
+            World::solo("C16", job_of(&p))
+        }
+    };
+    w.seed = crate::rng::mix(base, i);
+    w.note = format!("generated program #{}", i);
     w
 }
